@@ -9,6 +9,12 @@ CLAIMED = {
  "C02": dict(cat="other", technique="CrossHair symbolic execution of the real threshold code (L unbounded solver variable) + z3",
              text="Bounded symbolic execution: all six threshold views and check_command are executed with the length(s) as solver variables; within the bound (k<=3 lengths, 2 files) the verdict holds for every integer L>=1, which covers every boundary neighbour; counterexamples are replayed concretely.",
              ref="DESIGN.md 3/C02"),
+ "C13": dict(cat="other", technique="CrossHair on the real match/nfa_match/starts_with vs. derivative reference; z3 string/regex query on the DFA built by the real construction",
+             text="Bounded: every pattern tree up to the operator bound x every sequence up to the length bound is decided by the solver (E1 real stepping code, short sequences; E2 real automaton, sequences up to 12 in one query per pattern); construction terminates for every tree given by a symbolic prefix code.",
+             ref="DESIGN.md 3/C13"),
+ "C14": dict(cat="other", technique="CrossHair on the real find_all vs. derivative-based greedy reference (all clauses of the statement), replay on the unstubbed function",
+             text="Bounded: all non-nullable pattern trees up to the operator bound x all sequences up to the length bound; the solver ranges over pattern index, length and letters. One known finding (inner attempt shadows outer) is listed and assumed away so the rest of each condition's space is still explored.",
+             ref="DESIGN.md 3/C14"),
 }
 NA = {}
 def main():
